@@ -73,7 +73,8 @@ ResolveCountsOK(c) ==
                               = Count(c, LAMBDA f : f.ev = "start" /\ f.path = e.path))
     /\ \A i \in 1..Len(c.obs.log) :
          LET e == c.obs.log[i] IN
-         (e.ev = "hook-enter" /\ e.hook = "resolve" /\ e.ext = x) =>
+         \* c.unlogged: fields with generated resolvers (derive(SimpleObject)), which record no start/finish event
+         (e.ev = "hook-enter" /\ e.hook = "resolve" /\ e.ext = x /\ ~\E u \in 1..Len(c.unlogged) : c.unlogged[u] = e.field) =>
             IF IsItemPath(e.path)
             THEN LET parent == FieldPath(e.path) IN   \* nested lists: [f, #0, #1] belongs to the field at [f]
                  Count(c, LAMBDA f : f.ev = "hook-enter" /\ f.hook = "resolve" /\ f.ext = x /\ f.path = e.path)
